@@ -13,13 +13,14 @@ def run(tier, seed):
     ck.proof = lib.proof_step('props/C09.v', CONE)
     ck.broken += ck.proof['broken']
     if not ck.proof['driver_ok']:
-        return ck.finish(rule='driver unavailable')
+        ck.notes['driver'] = 'unavailable: model-side runs skipped, searching with the implementation-side oracles only'
     import soupsieve as sv
     n = 350 if tier == 'quick' else 12000
     ag = gen_selectors.AGen(rnd, names=['div', 'p', 'x-y', 'é', 'a1', 'LI'], classes=['x', 'a-b', 'é', '1st', '-'],
                             ids=['a', 'i d', '-x', 'ü', '9'], attrs=['title', 'data-x', 'type', 'xlink:href', 'A'],
-                            values=['x', 'a b', "it's", 'q"q', '', 'é', 'line\nbreak', '-', 'a-b', '1', ' ', 'tab\there', 'back\\slash', '\U0001F600'],
-                            texts=['hello', 'a"b', "c'd", ' ', 'x,y', '(z)'], feats=('core', 'contains', 'lang'))
+                            values=['x', 'a b', "it's", 'q"q', '', 'é', 'line\nbreak', '-', 'a-b', '1', ' ', 'tab\there', 'back\\slash', '\U0001F600',
+                                    'say "hi"', "it's'", 'x"', "'", '"', 'end\\'],
+                            texts=['hello', 'a"b', "c'd", ' ', 'x,y', '(z)', 'hi"', "q'", '"', 'b\\'], feats=('core', 'contains', 'lang'))
     docs = campaign.build(rnd, 'core', 6, 0)
     model_cases = []
     for _ in range(n):
